@@ -68,7 +68,8 @@ def routing(p):
     sn = [p.fns[x] for x in sn]
     if len(sn) != 1:
         raise ShapeUnrecognised("expected one function constructing the snapshot, found %s" % [f.path for f in sn])
-    r["shared_new"] = sn[0]
+    r["shared_new"] = p.fn_closure_calls(sn[0].path)    # a local closure called by name (`resolve(names)`) is a helper function
+    sn = [r["shared_new"]]
     adds = [c for c in sn[0].calls() if c.callee in p.fns and sn[0].in_loop(c.block)
             and p.fns[c.callee].d.get("impl_self_adt") == r["find"].d.get("impl_self_adt")]
     if len(adds) != 1:
